@@ -21,8 +21,9 @@ def mutate(rng, s):
     nid = max([c.id for c in s.cbs] + [0]) + 1
     # the same name offered by a second provider (guards: `cond` only — a multi-provider `unless`
     # is a conjunction *inside* one entry, which the engine model's entry list does not express)
+    aliased = {c.alias_of for c in s.cbs if c.alias_of} | {c.id for c in s.cbs if c.alias_of}
     for c in list(s.cbs):
-        if c.style == "name" and c.group != "unless" and rng.random() < 0.3:
+        if c.style == "name" and c.group != "unless" and c.id not in aliased and rng.random() < 0.3:
             others = [p for p in PROFILE.providers[:4] if p != c.provider
                       and not any(x.name == c.name and x.provider == p for x in s.cbs)]
             if others:
@@ -212,8 +213,26 @@ def probe_d13():
     return calls.count("l") != 1, f"guard calls {calls}"
 
 
+def run_corpus(ctx):
+    """regression inputs of fixed findings: plain programs with asserts"""
+    import os
+    import runpy
+    import warnings
+    from common import VERIF
+    cdir = os.path.join(VERIF, "corpus", "C12")
+    for fn in sorted(os.listdir(cdir)) if os.path.isdir(cdir) else []:
+        if fn.endswith(".py"):
+            try:
+                with warnings.catch_warnings():
+                    warnings.simplefilter("ignore")
+                    runpy.run_path(os.path.join(cdir, fn))
+            except Exception as e:
+                ctx.violation(os.path.join("corpus", "C12", fn), f"regression input fails: {type(e).__name__}: {e}")
+
+
 def run(ctx):
     lean_obligations(ctx)
+    run_corpus(ctx)
     ctx.coverage["rule"] = ("seeded random machines whose callbacks (conventions, names, guards, validators) are "
                             "distributed over machine, model, constructor listeners and late listeners; the same name "
                             "offered by 1-3 providers; listeners attached at random points of the history and attached "
